@@ -27,7 +27,8 @@ package bits
 //@ spec func nb(r []Variable) int = len(r) < fieldBits() ? len(r) : fieldBits()
 //@ contract toBinary
 //@   props C05
-//@   assigns api
+//   (v: the R1CS builder's boolean bookkeeping may reorder the terms of a linear expression it is handed)
+//@   assigns api, v
 //@   requires api != nil
 //@   ensures @len (len(opts) == 0 ==> len(result) == fieldBits()) && (len(opts) == 1 && optNbDigits(opts[0]) > 0 ==> len(result) == optNbDigits(opts[0])) && fresh(result)
 //@   ensures @elem-bool okOpts(opts) ==> forall k int :: 0 <= k && k < nb(result) ==> isBool(den(result[k]))
@@ -52,7 +53,7 @@ package bits
 // The lemma instances tie the field-valued sum to the integer bit sum for boolean digits.
 //@ contract ToBinary
 //@   props C05
-//@   assigns api
+//@   assigns api, v
 //@   requires api != nil
 //@   lemma @all-bool (forall k int :: 0 <= k && k < nb(result) ==> isBool(den(result[k]))) ==> allBool(result[:nb(result)])
 //@   lemma @int-sum allBool(result[:nb(result)]) ==> fsum(result, nb(result)) == ofInt(bsum(result[:nb(result)])) && fits(bsum(result[:nb(result)]), nb(result))
@@ -68,7 +69,7 @@ package bits
 // ---- fromBinary / FromBinary: sum_k digits[k]*2^k as a field element; without options every digit is forced boolean.
 //@ contract fromBinary
 //@   props C05
-//@   assigns api
+//@   assigns api, deep(digits)
 //@   requires api != nil
 //@   ensures @sum den(result) == fsum(digits, len(digits)) && stable(result)
 //@   ensures @bool len(opts) == 0 ==> forall k int :: 0 <= k && k < len(digits) ==> isBool(den(digits[k]))
@@ -80,7 +81,7 @@ package bits
 
 //@ contract FromBinary
 //@   props C05
-//@   assigns api
+//@   assigns api, deep(digits)
 //@   requires api != nil
 //@   lemma @all-bool (forall k int :: 0 <= k && k < len(digits) ==> isBool(den(digits[k]))) ==> allBool(digits)
 //@   lemma @int-sum allBool(digits) ==> fsum(digits, len(digits)) == ofInt(bsum(digits))
